@@ -39,7 +39,7 @@ TABLE_POOL = [
 ]
 COLS = ["x", "y", "z", "id"]
 ALIASES = ["al", "foo", "x", "k1", "sq9"]
-STRS = ["v", "o'k", "a\\b", "", "100%", "*", "x y", "naïve", "dir\\"]
+STRS = ["v", "o'k", "a\\b", "", "100%", "*", "x y", "naïve", "dir\\", "naïve o'k"]
 QCLS = ["Query", "MySQLQuery", "PostgreSQLQuery", "SQLLiteQuery", "MSSQLQuery", "OracleQuery"]
 FN1 = ["fn.Sum", "fn.Avg", "fn.Min", "fn.Max", "fn.Count", "fn.Abs", "fn.Upper", "fn.Lower", "fn.Length",
        "fn.Floor", "fn.Sqrt", "fn.First", "fn.Last", "fn.Std", "fn.StdDev", "fn.Ascii", "fn.Reverse", "fn.Trim",
